@@ -15,6 +15,8 @@
 //                                                                                 : List String
 //   func_text        gofmt-normalised, comment-free text of `func`               : String
 //   returns_in_func  rendered operands of every return statement in `func`       : List String
+//   assigns_in_func  rendered assignment and ++/-- statements in `func` whose left-hand side starts
+//                    with a prefix in `filter` (all when no filter), source order : List String
 //
 // `func` is "Name" or "Recv.Name" (pointer receivers written without the star).
 // A fact that cannot be located is an error (exit 2): a moved/renamed anchor is a broken tie, never
@@ -411,6 +413,41 @@ func main() {
 						parts[i] = render(fset, r)
 					}
 					items = append(items, posItem{rs.Pos(), strings.Join(parts, ", ")})
+				}
+				return true
+			})
+			sort.SliceStable(items, func(i, j int) bool { return items[i].pos < items[j].pos })
+			ss := make([]string, len(items))
+			for i, it := range items {
+				ss[i] = it.s
+			}
+			fmt.Fprintf(&b, "def %s : List String :=\n  %s\n\n", fc.Name, leanStringList(ss))
+		case "assigns_in_func":
+			// rendered assignment / inc-dec statements of `func` whose left-hand side starts with one
+			// of the `filter` prefixes (all of them when no filter is given), source order
+			var items []posItem
+			ast.Inspect(fd.Body, func(n ast.Node) bool {
+				var lhs string
+				switch x := n.(type) {
+				case *ast.AssignStmt:
+					parts := make([]string, len(x.Lhs))
+					for i, l := range x.Lhs {
+						parts[i] = render(fset, l)
+					}
+					lhs = strings.Join(parts, ", ")
+				case *ast.IncDecStmt:
+					lhs = render(fset, x.X)
+				default:
+					return true
+				}
+				keep := len(fc.Filter) == 0
+				for _, p := range fc.Filter {
+					if strings.HasPrefix(lhs, p) {
+						keep = true
+					}
+				}
+				if keep {
+					items = append(items, posItem{n.Pos(), render(fset, n)})
 				}
 				return true
 			})
